@@ -106,13 +106,14 @@ Qed.
 Lemma job_step1_move sorted s : move sorted s (job_step1 sorted s).
 Proof. unfold job_step1. destruct (pr s); try (left; reflexivity); apply step1_move. Qed.
 
-Lemma dstep_reachable seq sorted d e :
-  Forall (reachable cur_progs sorted) (d_fr d) -> Forall (reachable cur_progs sorted) (d_fr (dstep seq sorted d e)).
+Lemma dstep_reachable seq chain sorted d e :
+  Forall (reachable cur_progs sorted) (d_fr d) -> Forall (reachable cur_progs sorted) (d_fr (dstep seq chain sorted d e)).
 Proof.
   intro H. unfold dstep. destruct (d_up d).
   - destruct e; cbn [d_fr]; try exact H.
     + apply Forall_evict_first; exact H.
-    + destruct (nth j (d_jobs d) []) as [|h r]; [exact H|].
+    + destruct (chain && negb (prev_done j (d_jobs d))); [exact H|].
+      destruct (nth j (d_jobs d) []) as [|h r]; [exact H|].
       destruct (nth_error (d_fr d) h) as [s|]; [|exact H].
       destruct (suicide_returned s); cbn [d_fr]; [exact H|].
       eapply (Forall_at_pos _ (move sorted)); [apply move_reachable|intro; apply job_step1_move|exact H].
@@ -128,8 +129,8 @@ Proof.
   - destruct e; cbn [d_fr]; try exact H. apply Forall_restart_pending; exact H.
 Qed.
 
-Lemma frun_reachable seq sorted evs : forall d,
-  Forall (reachable cur_progs sorted) (d_fr d) -> Forall (reachable cur_progs sorted) (d_fr (fold_left (dstep seq sorted) evs d)).
+Lemma frun_reachable seq chain sorted evs : forall d,
+  Forall (reachable cur_progs sorted) (d_fr d) -> Forall (reachable cur_progs sorted) (d_fr (fold_left (dstep seq chain sorted) evs d)).
 Proof.
   induction evs as [|e r IH]; cbn; intros d H; [exact H|].
   apply IH. apply dstep_reachable. exact H.
@@ -141,11 +142,11 @@ Proof. apply frun_reachable. Qed.
 
 (* ------------------------------------------------------------------ all or nothing, no reappearance *)
 
-Lemma par_good seq sorted evs d0 :
+Lemma par_good seq chain sorted evs d0 :
   Forall (reachable cur_progs sorted) (d_fr d0) ->
-  Forall (fun s => st_good true sorted s = true) (d_fr (fold_left (dstep seq sorted) evs d0)).
+  Forall (fun s => st_good true sorted s = true) (d_fr (fold_left (dstep seq chain sorted) evs d0)).
 Proof.
-  intro H. apply (frun_reachable seq sorted evs) in H. rewrite Forall_forall in *.
+  intro H. apply (frun_reachable seq chain sorted evs) in H. rewrite Forall_forall in *.
   intros s Hs. apply good_all. apply H. exact Hs.
 Qed.
 
@@ -233,12 +234,13 @@ Proof.
     + apply IH. exact H.
 Qed.
 
-Lemma dstep_pw seq sorted d e : pw dmono (d_fr d) (d_fr (dstep seq sorted d e)).
+Lemma dstep_pw seq chain sorted d e : pw dmono (d_fr d) (d_fr (dstep seq chain sorted d e)).
 Proof.
   unfold dstep. destruct (d_up d).
   - destruct e; cbn [d_fr]; try (apply pw_refl; apply dmono_refl).
     + apply pw_evict_first.
-    + destruct (nth j (d_jobs d) []) as [|h r]; [apply pw_refl; apply dmono_refl|].
+    + destruct (chain && negb (prev_done j (d_jobs d))); [apply pw_refl; apply dmono_refl|].
+      destruct (nth j (d_jobs d) []) as [|h r]; [apply pw_refl; apply dmono_refl|].
       destruct (nth_error (d_fr d) h) as [s|]; [|apply pw_refl; apply dmono_refl].
       destruct (suicide_returned s); cbn [d_fr]; [apply pw_refl; apply dmono_refl|].
       apply pw_at_pos; [apply dmono_refl|apply job_step1_dmono].
@@ -254,7 +256,7 @@ Proof.
   - destruct e; cbn [d_fr]; try (apply pw_refl; apply dmono_refl). apply pw_restart_pending.
 Qed.
 
-Lemma frun_pw seq sorted evs : forall d, pw dmono (d_fr d) (d_fr (fold_left (dstep seq sorted) evs d)).
+Lemma frun_pw seq chain sorted evs : forall d, pw dmono (d_fr d) (d_fr (fold_left (dstep seq chain sorted) evs d)).
 Proof.
   induction evs as [|e r IH]; cbn; intro d; [apply pw_refl; apply dmono_refl|].
   eapply pw_trans; [apply dmono_trans|apply dstep_pw|apply IH].
@@ -272,24 +274,24 @@ Proof.
   unfold not_doomed_visible in G. rewrite Hd in G. cbn in G. apply negb_true_iff in G. exact G.
 Qed.
 
-Lemma par_no_reappear seq sorted d0 evs evs' i s :
+Lemma par_no_reappear seq chain sorted d0 evs evs' i s :
   Forall (reachable cur_progs sorted) (d_fr d0) ->
-  nth_error (d_fr (fold_left (dstep seq sorted) evs d0)) i = Some s -> doomed s = true ->
-  exists s', nth_error (d_fr (fold_left (dstep seq sorted) evs' (fold_left (dstep seq sorted) evs d0))) i = Some s' /\ doomed s' = true /\ visible s' = false.
+  nth_error (d_fr (fold_left (dstep seq chain sorted) evs d0)) i = Some s -> doomed s = true ->
+  exists s', nth_error (d_fr (fold_left (dstep seq chain sorted) evs' (fold_left (dstep seq chain sorted) evs d0))) i = Some s' /\ doomed s' = true /\ visible s' = false.
 Proof.
-  intros H0 Hn Hd. destruct (frun_pw seq sorted evs' (fold_left (dstep seq sorted) evs d0) i s Hn) as [s' [Hn' Hm]].
+  intros H0 Hn Hd. destruct (frun_pw seq chain sorted evs' (fold_left (dstep seq chain sorted) evs d0) i s Hn) as [s' [Hn' Hm]].
   exists s'. split; [exact Hn'|]. split; [apply Hm; exact Hd|].
   apply (doomed_invisible sorted); [|apply Hm; exact Hd].
-  assert (F : Forall (reachable cur_progs sorted) (d_fr (fold_left (dstep seq sorted) evs' (fold_left (dstep seq sorted) evs d0)))).
+  assert (F : Forall (reachable cur_progs sorted) (d_fr (fold_left (dstep seq chain sorted) evs' (fold_left (dstep seq chain sorted) evs d0)))).
   { apply frun_reachable. apply frun_reachable. exact H0. }
   rewrite Forall_forall in F. apply F. eapply nth_error_In. exact Hn'.
 Qed.
 
-Lemma par_all_or_nothing_gen seq sorted d0 evs :
+Lemma par_all_or_nothing_gen seq chain sorted d0 evs :
   Forall (reachable cur_progs sorted) (d_fr d0) ->
-  Forall (fun s => st_good true sorted s = true) (d_fr (fold_left (dstep seq sorted) evs d0))
-  /\ (forall evs' i s, nth_error (d_fr (fold_left (dstep seq sorted) evs d0)) i = Some s -> doomed s = true ->
-        exists s', nth_error (d_fr (fold_left (dstep seq sorted) evs' (fold_left (dstep seq sorted) evs d0))) i = Some s' /\ doomed s' = true /\ visible s' = false).
+  Forall (fun s => st_good true sorted s = true) (d_fr (fold_left (dstep seq chain sorted) evs d0))
+  /\ (forall evs' i s, nth_error (d_fr (fold_left (dstep seq chain sorted) evs d0)) i = Some s -> doomed s = true ->
+        exists s', nth_error (d_fr (fold_left (dstep seq chain sorted) evs' (fold_left (dstep seq chain sorted) evs d0))) i = Some s' /\ doomed s' = true /\ visible s' = false).
 Proof.
   intro H. split; [apply par_good; exact H|]. intros evs' i s Hn Hd. eapply par_no_reappear; eauto.
 Qed.
@@ -300,6 +302,11 @@ Lemma par_all_or_nothing sorted d0 evs :
   /\ (forall evs' i s, nth_error (d_fr (drun sorted evs d0)) i = Some s -> doomed s = true ->
         exists s', nth_error (d_fr (drun sorted evs' (drun sorted evs d0))) i = Some s' /\ doomed s' = true /\ visible s' = false).
 Proof. apply par_all_or_nothing_gen. Qed.
+
+Lemma par_all_or_nothing_v1 sorted d0 evs :
+  Forall (reachable cur_progs sorted) (d_fr d0) ->
+  Forall (fun s => st_good true sorted s = true) (d_fr (drun_v1 sorted evs d0)).
+Proof. intro H. apply par_all_or_nothing_gen. exact H. Qed.
 
 Lemma par_all_or_nothing_v0 sorted d0 evs :
   Forall (reachable cur_progs sorted) (d_fr d0) ->
@@ -446,7 +453,7 @@ Proof.
 Qed.
 
 Lemma dstep_v0_step sorted fr jobs i :
-  dstep false sorted (mkd true fr jobs) (DStep i) = mkd true (at_pos i (step1 sorted false) fr) jobs.
+  dstep false false sorted (mkd true fr jobs) (DStep i) = mkd true (at_pos i (step1 sorted false) fr) jobs.
 Proof.
   unfold dstep. cbn [d_up d_fr d_jobs andb]. destruct (nth_error fr i) eqn:E; [reflexivity|].
   rewrite at_pos_out by exact E. reflexivity.
@@ -687,11 +694,14 @@ Proof.
   - cbn [firstn length seq]. rewrite IH by assumption. reflexivity.
 Qed.
 
+Definition Pstruct (sorted : bool) (P : list st) : Prop :=
+  match P with [] => True | m :: U => progS sorted m /\ Forall (untouchedS sorted) U end.
+
+(* the queues of all pass goroutines, one after the other, are exactly the stretch of pushed-out fractions
+   that are not yet deleted *)
 Definition seq_inv (sorted : bool) (fr : list st) (jobs : list (list nat)) : Prop :=
-  exists D P C, fr = D ++ P ++ C /\ jobs = [seq (length D) (length P)]
-    /\ Forall deadS D
-    /\ match P with [] => True | m :: U => progS sorted m /\ Forall (untouchedS sorted) U end
-    /\ Forall (fun s => clean sorted s = true) C.
+  exists D P C, fr = D ++ P ++ C /\ concat jobs = seq (length D) (length P)
+    /\ Forall deadS D /\ Pstruct sorted P /\ Forall (fun s => clean sorted s = true) C.
 
 Lemma at_pos_nth_id {A} (f : A -> A) : forall l i s, nth_error l i = Some s -> f s = s -> at_pos i f l = l.
 Proof.
@@ -721,48 +731,116 @@ Proof.
       rewrite Forall_forall in HC. rewrite (clean_settled sorted s (HC s Hn)) in Hs. discriminate.
 Qed.
 
-Lemma in_jobs_single i q : In i q -> in_jobs i [q] = true.
+Lemma in_jobs_concat i jobs : In i (concat jobs) -> in_jobs i jobs = true.
 Proof.
-  intro H. unfold in_jobs. cbn. rewrite orb_false_r. apply existsb_exists. exists i. split; [exact H|apply Nat.eqb_refl].
+  intro H. apply in_concat in H as [q [Hq Hi]]. unfold in_jobs. apply existsb_exists. exists q. split; [exact Hq|].
+  apply existsb_exists. exists i. split; [exact Hi|apply Nat.eqb_refl].
 Qed.
 
-Lemma P_deleting sorted P s : match P with [] => True | m :: U => progS sorted m /\ Forall (untouchedS sorted) U end ->
-  In s P -> settled s = false -> is_deleting s = true.
+Lemma P_deleting sorted P s : Pstruct sorted P -> In s P -> settled s = false -> is_deleting s = true.
 Proof.
   destruct P as [|m U]; [intros _ []|]. intros [Hm HU] [E|Hin] Hs.
   - subst. destruct (prog_kind sorted s Hm) as [K|K]; [exact K|congruence].
   - rewrite Forall_forall in HU. apply (untouched_deleting sorted s (HU s Hin)).
 Qed.
 
-Lemma seq_step_inv sorted fr jobs e : step_only e = true -> seq_inv sorted fr jobs ->
-  let d' := dstep true sorted (mkd true fr jobs) e in
+Lemma Pstruct_app sorted P X : Pstruct sorted P -> Forall (untouchedS sorted) X -> Pstruct sorted (P ++ X).
+Proof.
+  destruct P as [|m U]; cbn.
+  - intros _ HX. destruct X as [|x X']; [exact I|]. inversion HX; subst. split; [apply untouched_prog; assumption|assumption].
+  - intros [Hm HU] HX. split; [exact Hm|apply Forall_app; auto].
+Qed.
+
+Lemma prog_not_listed sorted m : progS sorted m -> listed m = false.
+Proof.
+  intro H. destruct (prog_kind sorted m H) as [K|K].
+  - unfold is_deleting, listed in *. destruct (pr m) as [| |mm|p mm| |]; try discriminate. destruct mm; try discriminate; reflexivity.
+  - assert (X : forallb (fun m => negb (listed m)) (prog_states sorted) = true) by (destruct sorted; vm_compute; reflexivity).
+    rewrite forallb_forall in X. apply negb_true_iff. apply X. exact H.
+Qed.
+
+Lemma dead_not_listed s : deadS s -> listed s = false.
+Proof. intros [H _]. unfold listed. rewrite H. reflexivity. Qed.
+
+Lemma evict_first_skip : forall X Y k, Forall (fun s => listed s = false) X -> evict_first k (X ++ Y) = X ++ evict_first k Y.
+Proof.
+  induction X as [|x r IH]; intros Y k H; [reflexivity|]. inversion H; subst. cbn. rewrite H2, IH by assumption. reflexivity.
+Qed.
+
+Lemma evict_pos_skip : forall X Y k i, Forall (fun s => listed s = false) X -> evict_pos k i (X ++ Y) = evict_pos k (i + length X) Y.
+Proof.
+  induction X as [|x r IH]; intros Y k i H; [cbn; rewrite Nat.add_0_r; reflexivity|]. inversion H; subst. cbn.
+  rewrite H2, IH by assumption. f_equal. lia.
+Qed.
+
+Lemma nth_split_jobs {A} : forall (jobs : list (list A)) j h r, nth j jobs [] = h :: r ->
+  exists X Y, jobs = X ++ (h :: r) :: Y /\ firstn j jobs = X /\ forall x, set_nth j x jobs = X ++ x :: Y.
+Proof.
+  induction jobs as [|q t IH]; intros j h r H; [destruct j; discriminate|].
+  destruct j; cbn in H.
+  - subst q. exists [], t. auto.
+  - destruct (IH j h r H) as [X [Y [E [F S]]]]. exists (q :: X), Y. cbn. rewrite F. split; [rewrite E at 1; reflexivity|].
+    split; [reflexivity|]. intro x. rewrite S. reflexivity.
+Qed.
+
+Lemma all_empty_concat {A} (X : list (list A)) :
+  forallb (fun q => match q with [] => true | _ => false end) X = true -> concat X = [].
+Proof.
+  induction X as [|q t IH]; cbn; [reflexivity|]. destruct q; [|discriminate]. exact IH.
+Qed.
+
+Lemma seq_step_inv sorted fr jobs e : live_only e = true -> seq_inv sorted fr jobs ->
+  let d' := dstep true true sorted (mkd true fr jobs) e in
   d_up d' = true /\ seq_inv sorted (d_fr d') (d_jobs d').
 Proof.
   intros He [D [P [C [Efr [Ejobs [HD [HP HC]]]]]]]. cbv zeta.
   assert (I0 : seq_inv sorted fr jobs) by (exists D, P, C; auto).
   destruct e; try discriminate; unfold dstep; cbn [d_up d_fr d_jobs].
+  - (* DPass *)
+    split; [reflexivity|].
+    assert (NL : Forall (fun s => listed s = false) (D ++ P)).
+    { apply Forall_app. split.
+      - rewrite Forall_forall in *. intros s Hs. apply dead_not_listed. apply HD. exact Hs.
+      - destruct P as [|m U]; [constructor|]. destruct HP as [Hm HU]. constructor; [eapply prog_not_listed; eauto|].
+        rewrite Forall_forall in *. intros s Hs. eapply prog_not_listed. apply untouched_prog. apply HU. exact Hs. }
+    assert (HL : Forall (fun s => listed s = true) C).
+    { rewrite Forall_forall in *. intros s Hs. eapply clean_listed. apply HC. exact Hs. }
+    rewrite Efr, app_assoc. rewrite evict_first_skip, evict_pos_skip by exact NL.
+    rewrite evict_first_all_listed, evict_pos_all_listed by exact HL.
+    exists D, (P ++ map evict1 (firstn k C)), (skipn k C). repeat split.
+    + rewrite <- !app_assoc. reflexivity.
+    + rewrite concat_app, Ejobs. cbn [concat]. rewrite app_nil_r, !app_length, map_length. cbn [Nat.add].
+      rewrite seq_app. reflexivity.
+    + exact HD.
+    + apply Pstruct_app; [exact HP|]. rewrite Forall_forall. intros s Hs. apply in_map_iff in Hs as [c [E Hc]].
+      exists c. split; [|auto]. rewrite Forall_forall in HC. apply HC. rewrite <- (firstn_skipn k C). apply in_or_app. left. exact Hc.
+    + rewrite Forall_forall in *. intros s Hs. apply HC. rewrite <- (firstn_skipn k C). apply in_or_app. right. exact Hs.
   - (* DJob *)
+    destruct (true && negb (prev_done j jobs)) eqn:G; [split; [reflexivity|exact I0]|].
     destruct (nth j jobs []) as [|h r] eqn:Ej; [split; [reflexivity|exact I0]|].
-    assert (X : j = 0 /\ h :: r = seq (length D) (length P)).
-    { rewrite Ejobs in Ej. destruct j as [|[|j]]; cbn in Ej; try discriminate. auto. }
-    destruct X as [Ej0 Eq]. subst j. destruct P as [|m U]; [discriminate|].
-    + cbn [length seq] in Eq. inversion Eq; subst h r. destruct HP as [Hm HU].
-      assert (Hn : nth_error fr (length D) = Some m).
-      { rewrite Efr. rewrite nth_error_app2 by lia. rewrite Nat.sub_diag. reflexivity. }
-      rewrite Hn. destruct (suicide_returned m) eqn:R; cbn [d_up d_fr d_jobs].
-      * split; [reflexivity|]. exists (D ++ [m]), U, C. repeat split.
-        -- rewrite Efr. rewrite <- app_assoc. reflexivity.
-        -- rewrite Ejobs. cbn [set_nth]. rewrite app_length. cbn. rewrite Nat.add_1_r. reflexivity.
-        -- apply Forall_app. split; [exact HD|]. constructor; [eapply prog_dead; eauto|constructor].
-        -- destruct U as [|u U']; [exact I|]. inversion HU; subst. split; [apply untouched_prog; assumption|assumption].
-        -- exact HC.
-      * split; [reflexivity|]. exists D, (job_step1 sorted m :: U), C. repeat split.
-        -- rewrite Efr. cbn [app]. apply at_pos_mid.
-        -- rewrite Ejobs. reflexivity.
-        -- exact HD.
-        -- rewrite prog_job_step by exact Hm. apply prog_step. exact Hm.
-        -- exact HU.
-        -- exact HC.
+    cbn in G. apply negb_false_iff in G. unfold prev_done in G.
+    destruct (nth_split_jobs jobs j h r Ej) as [X [Y [EJ [FX SX]]]].
+    rewrite FX in G. pose proof (all_empty_concat X G) as CX.
+    assert (Eq : (h :: r) ++ concat Y = seq (length D) (length P)).
+    { rewrite <- Ejobs, EJ, concat_app, CX. reflexivity. }
+    destruct P as [|m U]; [discriminate|].
+    cbn [length seq app] in Eq. inversion Eq as [[Eh Er]]. destruct HP as [Hm HU].
+    assert (Hn : nth_error fr (length D) = Some m).
+    { rewrite Efr. rewrite nth_error_app2 by lia. rewrite Nat.sub_diag. reflexivity. }
+    rewrite Hn. destruct (suicide_returned m) eqn:R; cbn [d_up d_fr d_jobs].
+    + split; [reflexivity|]. exists (D ++ [m]), U, C. repeat split.
+      * rewrite Efr. rewrite <- app_assoc. reflexivity.
+      * rewrite SX, concat_app, CX. cbn [concat app]. rewrite Er, app_length. cbn. rewrite Nat.add_1_r. reflexivity.
+      * apply Forall_app. split; [exact HD|]. constructor; [eapply prog_dead; eauto|constructor].
+      * destruct U as [|u U']; [exact I|]. inversion HU; subst. split; [apply untouched_prog; assumption|assumption].
+      * exact HC.
+    + split; [reflexivity|]. exists D, (job_step1 sorted m :: U), C. repeat split.
+      * rewrite Efr. cbn [app]. apply at_pos_mid.
+      * exact Ejobs.
+      * exact HD.
+      * rewrite prog_job_step by exact Hm. apply prog_step. exact Hm.
+      * exact HU.
+      * exact HC.
   - (* DStep *)
     destruct (nth_error fr i) as [s|] eqn:Hn; [|split; [reflexivity|exact I0]].
     destruct (true && in_jobs i jobs && is_deleting s) eqn:G; cbn [d_up d_fr d_jobs]; [split; [reflexivity|exact I0]|].
@@ -770,7 +848,7 @@ Proof.
     assert (Es : step1 sorted false s = s).
     { destruct (settled s) eqn:S; [apply step1_settled; exact S|]. exfalso.
       rewrite Efr in Hn. destruct (unsettled_pos sorted D P C i s HD HC Hn S) as [Hi Hs].
-      rewrite Ejobs, (in_jobs_single _ _ Hi), (P_deleting sorted P s HP Hs S) in G. discriminate. }
+      rewrite <- Ejobs in Hi. rewrite (in_jobs_concat _ _ Hi), (P_deleting sorted P s HP Hs S) in G. discriminate. }
     rewrite (at_pos_nth_id _ fr i s Hn Es). exact I0.
   - (* DStepR *)
     destruct (true && in_jobs i jobs) eqn:G; cbn [d_up d_fr d_jobs]; [split; [reflexivity|exact I0]|].
@@ -779,39 +857,33 @@ Proof.
     assert (Es : step1 sorted true s = s).
     { destruct (settled s) eqn:S; [apply step1_settled; exact S|]. exfalso.
       rewrite Efr in Hn. destruct (unsettled_pos sorted D P C i s HD HC Hn S) as [Hi Hs].
-      rewrite Ejobs, (in_jobs_single _ _ Hi) in G. discriminate. }
+      rewrite <- Ejobs in Hi. rewrite (in_jobs_concat _ _ Hi) in G. discriminate. }
     rewrite (at_pos_nth_id _ fr i s Hn Es). exact I0.
 Qed.
 
-Lemma seq_run_inv sorted sched : forall fr jobs, seq_inv sorted fr jobs ->
-  let d' := fold_left (dstep true sorted) (filter step_only sched) (mkd true fr jobs) in
+Lemma seq_run_inv sorted evs : Forall (fun e => live_only e = true) evs -> forall fr jobs, seq_inv sorted fr jobs ->
+  let d' := fold_left (dstep true true sorted) evs (mkd true fr jobs) in
   seq_inv sorted (d_fr d') (d_jobs d').
 Proof.
-  induction sched as [|e r IH]; intros fr jobs H; [exact H|].
-  cbn [filter]. destruct (step_only e) eqn:E; [|apply IH; exact H].
-  cbn [fold_left]. destruct (seq_step_inv sorted fr jobs e E H) as [U I].
-  remember (dstep true sorted (mkd true fr jobs) e) as d1. destruct d1 as [u f j]. cbn in U, I. subst u.
+  intro HF. induction HF as [|e r He _ IH]; intros fr jobs H; [exact H|].
+  cbn [fold_left]. destruct (seq_step_inv sorted fr jobs e He H) as [U I].
+  remember (dstep true true sorted (mkd true fr jobs) e) as d1. destruct d1 as [u f j]. cbn in U, I. subst u.
   apply IH. exact I.
 Qed.
+
+Lemma seq_init_inv sorted d0 : Forall (fun s => clean sorted s = true) d0 -> seq_inv sorted d0 [].
+Proof. intro H. exists [], [], d0. repeat split; auto. Qed.
+
+Lemma filter_Forall {A} (f : A -> bool) l : Forall (fun e => f e = true) (filter f l).
+Proof. rewrite Forall_forall. intros x Hx. apply filter_In in Hx. apply Hx. Qed.
 
 Lemma seq_pass_inv sorted k sched d0 : Forall (fun s => clean sorted s = true) d0 ->
   let d' := drun sorted (DPass k :: filter step_only sched) (mkd true d0 []) in
   seq_inv sorted (d_fr d') (d_jobs d').
 Proof.
-  intro H. unfold drun. cbn [fold_left]. unfold dstep at 2. cbn [d_up d_fr d_jobs app].
-  apply seq_run_inv.
-  assert (HL : Forall (fun s => listed s = true) d0).
-  { rewrite Forall_forall in *. intros s Hs. eapply clean_listed. apply H. exact Hs. }
-  rewrite evict_first_all_listed, evict_pos_all_listed by exact HL.
-  exists [], (map evict1 (firstn k d0)), (skipn k d0). repeat split.
-  - cbn. rewrite map_length. reflexivity.
-  - constructor.
-  - assert (HU : Forall (untouchedS sorted) (map evict1 (firstn k d0))).
-    { rewrite Forall_forall. intros s Hs. apply in_map_iff in Hs as [c [E Hc]]. exists c. split; [|auto].
-      rewrite Forall_forall in H. apply H. rewrite <- (firstn_skipn k d0). apply in_or_app. left. exact Hc. }
-    destruct (map evict1 (firstn k d0)) as [|m U]; [exact I|]. inversion HU; subst.
-    split; [apply untouched_prog; assumption|assumption].
-  - rewrite Forall_forall in *. intros s Hs. apply H. rewrite <- (firstn_skipn k d0). apply in_or_app. right. exact Hs.
+  intro H. apply seq_run_inv; [|apply seq_init_inv; exact H].
+  constructor; [reflexivity|]. rewrite Forall_forall. intros e He. apply filter_In in He as [_ He].
+  destruct e; try discriminate; reflexivity.
 Qed.
 
 (* ------------------------------------------------------------------ what a complete start makes of it *)
@@ -866,12 +938,10 @@ Proof. induction a; cbn; auto. Qed.
 Lemma prefix_shape_true a : prefix_shape (repeat true a) = true.
 Proof. destruct a; cbn; [reflexivity|apply forallb_repeat_true]. Qed.
 
-Lemma par_prefix_at_restart sorted k sched d0 : Forall (fun s => clean sorted s = true) d0 ->
-  prefix_shape (map alive (after_crashed_pass sorted k sched d0)) = true
-  /\ Forall (fun s => settled s = true) (after_crashed_pass sorted k sched d0).
+Lemma inv_prefix sorted fr jobs : seq_inv sorted fr jobs ->
+  prefix_shape (map alive (restart_all sorted (map crash1 fr))) = true.
 Proof.
-  intro H. unfold after_crashed_pass. split; [|apply restart_all_settled].
-  destruct (seq_pass_inv sorted k sched d0 H) as [D [P [C [Efr [_ [HD [HP HC]]]]]]].
+  intros [D [P [C [Efr [_ [HD [HP HC]]]]]]].
   rewrite Efr.
   rewrite (restart_all_alive sorted deadS false) by (auto using dead_start).
   rewrite prefix_shape_false.
@@ -880,10 +950,27 @@ Proof.
     cbn. apply app_nil_r. }
   destruct P as [|m U].
   - cbn [app]. rewrite EC. apply prefix_shape_true.
-  - destruct HP as [_ HU]. cbn [app map restart_all].
+  - cbn in HP. destruct HP as [_ HU]. cbn [app map restart_all].
     rewrite (restart_all_alive sorted (untouchedS sorted) true) by (auto using untouched_start).
     rewrite EC. rewrite <- repeat_app.
     destruct (alive _); cbn [prefix_shape]; [apply forallb_repeat_true|apply prefix_shape_true].
+Qed.
+
+Lemma par_prefix_at_restart sorted k sched d0 : Forall (fun s => clean sorted s = true) d0 ->
+  prefix_shape (map alive (after_crashed_pass sorted k sched d0)) = true
+  /\ Forall (fun s => settled s = true) (after_crashed_pass sorted k sched d0).
+Proof.
+  intro H. unfold after_crashed_pass. split; [|apply restart_all_settled].
+  eapply inv_prefix. apply (seq_pass_inv sorted k sched d0 H).
+Qed.
+
+(* any number of passes in flight *)
+Lemma par_prefix_any_passes sorted evs d0 : Forall (fun s => clean sorted s = true) d0 ->
+  prefix_shape (map alive (after_crashed_passes sorted evs d0)) = true
+  /\ Forall (fun s => settled s = true) (after_crashed_passes sorted evs d0).
+Proof.
+  intro H. unfold after_crashed_passes. split; [|apply restart_all_settled].
+  eapply inv_prefix. unfold drun. apply seq_run_inv; [apply filter_Forall|apply seq_init_inv; exact H].
 Qed.
 
 Lemma pat_keeps_prefix : forall l k, prefix_shape l = true -> prefix_shape (pat k l) = true.
@@ -907,9 +994,9 @@ Qed.
 (* two passes in flight (a later maintenance step starts its pass goroutine while the first one has not
    started its deletion yet, e.g. because it waits for a reader or a seal): the second goroutine deletes a
    newer fraction first *)
-Lemma par_overlapping_passes_refuted :
+Lemma par_overlapping_passes_v1_refuted :
   exists sorted evs d0, Forall (fun s => clean sorted s = true) d0 /\
-    prefix_shape (map alive (restart_all sorted (map crash1 (d_fr (drun sorted evs (mkd true d0 [])))))) = false.
+    prefix_shape (map alive (restart_all sorted (map crash1 (d_fr (drun_v1 sorted evs (mkd true d0 [])))))) = false.
 Proof.
   exists true, [DPass 1; DPass 1; DJob 1; DJob 1; DJob 1], [clean_sealed true; clean_sealed true; clean_active].
   split; [repeat (apply Forall_cons; [reflexivity|]); apply Forall_nil|vm_compute; reflexivity].
